@@ -19,7 +19,7 @@ func init() {
 	core.Register(&core.Prop{
 		ID: "C16", Level: "exploration",
 		Rule: "every multiset of 0..3 (thorough 4) PEG requests with sizes from {1 unit, bank/3, bank/2, bank-1, bank, bank+1, 3*bank} (in PEG at the executing block's rates), sources pUSD and pFCT, placed as separate entries in one block / all in one batch / spread over a following ungraded block, in the bank-per-height era, the pooled-bank era and across the fork between them; the real pipeline executes them; oracle from the property: PEG created per executing block (pooled) or per held height (before the fork) <= bank; every request gets its full amount when the total fits, otherwise at least its floored proportional share and at most that plus the undistributed dust; refund >= 0 in the source asset, equal to the reference refund within the rounding of two integer divisions, and yield*pegRate + refund*srcRate <= input*srcRate; balances move by exactly (-input + refund, +yield); the bank table row of a pooled block is (bank, PEG used, PEG requested). Non-trivial = distinct (era, placement, multiset)",
-		Assumptions: []string{"recorded rates of the executing block (C12)", "requests by one funded address; a request the address cannot afford when it executes is rejected whole"},
+		Assumptions: []string{"recorded rates of the executing block (C12)", "requests by one funded address; a request the address cannot afford when it executes is rejected whole", "who receives the rounding dust of an oversubscribed bank is taken from the pinned tree's documented rule (the largest request; among equal largest requests the lowest entry hash, then the lowest transaction index): stricter than the property's wording, because a different recipient is a different ledger"},
 		Run:         runC16,
 	})
 }
